@@ -1,2 +1,25 @@
--- driver stub (replaced when the model for C14 is built)
-def main : IO Unit := pure ()
+/-
+  Driver for C14: runs the generated IAPWS-97 definitions over `Float` (bit patterns in, bit
+  patterns out) and the hand model of `power_array`.
+-/
+import PyTough.Gen.Iapws
+import PyTough.Py.Proto
+open Model.Thermo Gen.Iapws
+
+def fx := floatOfHex
+
+def handle : List String → String
+  | ["cowat", t, p] => showRet (cowat (fx t) (fx p))
+  | ["supst", t, p] => showRet (supst (fx t) (fx p))
+  | ["super", d, t] => showRet (super_ (fx d) (fx t))
+  | ["sat", t] => showRet (sat (fx t))
+  | ["tsat", p] => showRet (tsat (fx p))
+  | ["visc", d, t] => showRet (visc (fx d) (fx t))
+  | ["b23p", t] => showRet (b23p (fx t))
+  | ["b23t", p] => showRet (b23t (fx p))
+  | ["region", t, p] => showRet (region (fx t) (fx p))
+  | ["parr", v, ch] => " ".intercalate ((powerArray (fx v) (parseChain ch)).map hexOfFloat)
+  | ["chainwf", ch] => if chainWF (parseChain ch) then "true" else "false"
+  | _ => "bad-op"
+
+def main : IO Unit := Py.serve handle
